@@ -26,7 +26,7 @@ EXPLANATION = (
 ASSUMPTIONS = ["hooks do not raise", "inline executor", "concurrent messages are checked per message in C02/C07 harnesses; here one message per run"]
 TRUSTED = ["CPython asyncio (real, virtual clock)", "vt.sym explorer", "recording middlewares"]
 BOUNDS = {"middlewares": "0..2 quick (3 kinds per hook), 3 thorough (2 kinds per hook)", "messages": 1}
-REQUIRED_COVERS = ["late_middleware", "via_listen", "future_hook", "exec", "send", "kick_failed", "async_hook", "sync_hook", "no_hook", "replace", "post_save_skipped", "on_error_ran"]
+REQUIRED_COVERS = ["outcome_cancelled", "outcome_raise_base", "outcome_timeout", "late_middleware", "via_listen", "future_hook", "exec", "send", "kick_failed", "async_hook", "sync_hook", "no_hook", "replace", "post_save_skipped", "on_error_ran"]
 
 EXEC_HOOKS = ("pre_execute", "on_error", "post_execute", "post_save")
 SEND_HOOKS = ("pre_send", "post_send")
@@ -49,6 +49,11 @@ def cases(tier: str, hname: str = "harness") -> List[Any]:
             if tier == "thorough":
                 for v0 in itertools.product(range(2), repeat=4):
                     out.append({"side": "exec", "n": 3, "outcome0": outcome, "backend_fail0": bf, "v0": list(v0), "kinds": 2})
+    # the other ways a task function can fail: an exception outside the Exception hierarchy, a cancellation of something the
+    # function awaits, a timeout label that fires
+    for outcome in ("raise_base", "cancelled", "timeout"):
+        for v0 in itertools.product(range(3), repeat=4):
+            out.append({"side": "exec", "n": 1, "outcome0": outcome, "backend_fail0": False, "v0": list(v0), "kinds": 3})
     for n in (0, 1, 2) + ((3,) if tier == "thorough" else ()):
         for kf in (False, True):
             out.append({"side": "send", "n": n, "kick_fail": kf, "kinds": 3 if n < 3 else 2})
@@ -91,6 +96,7 @@ def exec_side(c: sym.Ctx, case: Dict[str, Any]) -> None:
     if o != "return":
         want += [(k, "on_error") for k, m in enumerate(mws) if "on_error" in m]
         c.cover("on_error_ran")
+        c.cover("outcome_" + o)
     want += [(k, "post_execute") for k, m in enumerate(mws) if "post_execute" in m]
     if o != "no_result" and not bf:
         want += [(k, "post_save") for k, m in enumerate(mws) if "post_save" in m]
